@@ -1,5 +1,6 @@
 import SfVerif.Props.C03
 import SfVerif.Lemmas.Codec5
+import SfVerif.Lemmas.GenWriter
 /-! C02 — a completed output document is exactly the value that was written. -/
 namespace SfVerif.Props.C02
 open SfVerif SfVerif.Gen
@@ -74,5 +75,12 @@ theorem C02_completed_output_is_the_tree (v : TVal) (h : wfV v = true) :
 example : wfV (.map [(#[0x61], .seq [.int (-5), .some (.str #[0x62, 0x63]), .none]),
                      (#[], .tup [.f64 0x3ff0000000000000, .bool true, .map []])]) = true := by
   simp [wfV, wfList, wfPairs]
+
+/-- **tie by translation**: one provider write call of the model is equal to the step assembled,
+    on every run, from what each write function of provider/src/write.rs consults (which method of
+    the state machine) and emits (which rmp encoder, with which argument; the zero-filled string
+    payload and its offset) -/
+theorem C02_write_calls_are_the_source_text (w : Writer) (op : WOp) : writerStepGen w op = w.step op :=
+  gen_writerStep_eq w op
 
 end SfVerif.Props.C02
